@@ -1,7 +1,7 @@
 (* C03 -- lemmas about the block-variable order and the output count. *)
 From Coq Require Import List String Bool Arith Lia Permutation Sorted.
 Import ListNotations.
-Require Import MV.Contract.ContractSyntax MV.Contract.BlockVars.
+Require Import MV.Contract.ContractSyntax MV.Contract.StateModel MV.Contract.StateProofs MV.Contract.BlockVars.
 Local Open Scope string_scope.
 
 Lemma smem_In x l : smem x l = true <-> In x l.
@@ -131,4 +131,23 @@ Proof.
   - intros Hni. destruct (Nat.lt_ge_cases i (List.length l1)) as [ | Hge]; auto.
     rewrite nth_error_app2 in Hq by auto. apply nth_error_In in Hq. unfold l2 in Hq.
     apply filter_In in Hq. destruct Hq as [_ Hq]. apply smem_In in Hq. contradiction.
+Qed.
+
+(* ---------------------------------------------------------------- admission of composite block variables *)
+(* s: the variables of the enclosing function when the operator is called (where the generated get_state / set_state
+   resolve the symbol name); t: the variables the code of the block sees.  The block shares with the enclosing function
+   the names that are live into the statement (names first bound inside the block are its locals).  For an admitted
+   composite both resolve the name to the same value and the same storage cell, and the getter element is the same. *)
+Lemma admitted_composite_same_cell live_in q s t :
+  composite_admitted live_in q = true ->
+  (forall x, In x live_in -> env s x = env t x) -> (forall l k, heap s l k = heap t l k) ->
+  eval s q = eval t q /\ cell_of s q = cell_of t q /\ read1 s q = read1 t q.
+Proof.
+  intros A He Hh. unfold composite_admitted in A. rewrite forallb_forall in A.
+  assert (S : forall x, In x (support q) -> env s x = env t x).
+  { intros x I. apply He. apply smem_In. apply A; exact I. }
+  split; [ | split ].
+  - apply eval_support; assumption.
+  - apply cell_of_support; assumption.
+  - unfold read1. rewrite (eval_support s t q S Hh). reflexivity.
 Qed.
